@@ -29,7 +29,10 @@ CONSTANTS ALG,         \* declared decorator: "no" "inf" "lfu" "lru" "mru" "rr"
           NARCH,       \* 0: no archive, 1: one archive bound at start, 2: plus a spare one
           DEPTH,       \* bound on the number of steps
           Deviations,
-          Props        \* properties whose clauses Refines checks
+          Props,       \* properties whose clauses Refines checks
+          UNKEYAT      \* where an unkeyable argument fails in a safe decorator: "keymap" (the key cannot be built:
+                       \* the wrapper evaluates and returns at once) or "lookup" (the raw key is built but is
+                       \* unhashable: the dictionary lookup fails and the rest of the wrapper still runs)
 
 (* argument alphabet - identical to harness/cache_driver.alphabet(NX) *)
 NArgs   == NX + 5 + (IF SAFE THEN 1 ELSE 0)
@@ -265,7 +268,7 @@ CallUnkey(a) ==  \* safe decorators: arguments that cannot be keyed -> plain eva
      THEN /\ UNCHANGED <<mem, archs, cur, swap, stats, queue, refc, ucnt, uord>>
           /\ Finish(Event("call", Ret(a, 0, "TypeError", <<>>)))
      ELSE /\ stats' = Bump(stats, 2, 1)
-          /\ IF EffAlg = "no" /\ Size(mem) > 0
+          /\ IF EffAlg = "no" /\ Size(mem) > 0 /\ UNKEYAT = "lookup"
              THEN /\ mem' = Zero                                    \* the trailing purge block still runs
                   /\ archs' = WithArch(cur, IF Archived(cur) THEN Overlay(Arch(cur), mem) ELSE Arch(cur))
              ELSE UNCHANGED <<mem, archs>>
